@@ -134,10 +134,13 @@ Proof.
   apply c01b_pay_fee_bf in Hp.
   assert (Hx : (s1, e1) = (s', evs) \/
                exists s2, execute_action s1 signer tx idx ca = Ok s2 /\ (s2, e1) = (s', evs)).
-  { destruct (fst ca);
+  { destruct (fst ca) eqn:Ea;
       first [ left; congruence
             | right; apply bind_ok in H; destruct H as [s2 [He H]]; exists s2;
-              (split; [exact He|congruence]) ]. }
+              (split; [exact He|congruence])
+            | exfalso;
+              destruct (execute_action s1 signer tx idx ca) as [s2|e] eqn:E; [|discriminate H];
+              exact (execute_relay_failing_never_ok _ _ _ _ _ _ _ Ea E) ]. }
   destruct Hx as [Hx|[s2 [He Hx]]]; inversion Hx; subst; clear Hx.
   - exact Hp.
   - apply c01b_execute_bf in He. rewrite He. exact Hp.
@@ -219,3 +222,20 @@ Example fees_routed_nonvacuous :
     bf_total (block_fees s) 0 = 149 /\
     bal s (sudo s) 0 = 1000000 /\ bal s' (sudo s) 0 = 1000149 /\ length ds = 1%nat.
 Proof. eexists; eexists. vm_compute. repeat split; reflexivity. Qed.
+
+(** ... also for an asset whose allowed-fee-asset status was revoked after the fee was paid,
+    in the same block: the 12 units of asset 1 collected from account 4 reach the fee recipient,
+    and a further payment in asset 1 is refused. *)
+Example fees_routed_after_removal_nonvacuous :
+  let s := fst (run sample_two_fee_assets sample_ops_fee_asset_removed) in
+  fee_assets s = [0] /\
+  bf_total (block_fees s) 1 = 12 /\ bal s 4 1 = 488 /\
+  snd (exec_tx s (checked s (mk_tx 113 4 1 [ATransfer 5 1 0 1]))) = OutErr EFeeAsset /\
+  exists s' ds,
+    end_block s = Ok (s', ds) /\
+    bal s (sudo s) 1 = 0 /\ bal s' (sudo s) 1 = 12 /\ block_fees s' = [] /\
+    supply0 sample_L sample_C s' 1 = supply0 sample_L sample_C sample_two_fee_assets 1.
+Proof.
+  cbv zeta. repeat (split; [vm_compute; reflexivity|]).
+  eexists; eexists. vm_compute. repeat split; reflexivity.
+Qed.
